@@ -33,7 +33,10 @@ use crate::haystack::val::Value;
 pub unsafe extern "C" fn haystack_value_get_date_year(val: *const Value) -> u32 {
     match val.as_ref() {
         Some(value) => match value {
-            Value::Date(date) => return date.year() as u32,
+            Value::Date(date) => match u32::try_from(date.year()) {
+                Ok(year) => return year,
+                Err(_) => new_error("Year before 0 can't be returned as an unsigned value"),
+            },
             _ => new_error("Not a Date Value"),
         },
         None => new_error("Invalid Value reference"),
